@@ -19,6 +19,10 @@ PROP = {
         {"name": "c16net", "pkg": "./internal/pkg/verifnet", "run": "^TestVerif_C16_Net$", "kind": "rapid", "toolchain": "go124",
          "facets": ["C16/net"], "checks": (1, 2), "shards": (2, 8), "shrinktime": (1, 1), "timeout": (600, 2400), "verbose": True,
          "env": {"VERIF_N_C16_NMIN": (30, 70), "VERIF_N_C16_NMAX": (60, 150)}},
+        # ProcessBody gives back what it took, whatever the response does (sizes around the spool thresholds, read errors at
+        # any offset, a connection refusing a read deadline at any call)
+        {"name": "c16body", "pkg": "./internal/pkg/archiver", "run": "^TestVerif_C16_Body$", "kind": "rapid",
+         "facets": ["C16/body"], "checks": (1500, 20000), "shards": (2, 8), "timeout": (600, 3000)},
         {"name": "c16table", "pkg": "./internal/pkg/archiver/ratelimiter", "run": "^TestVerif_C16_Table$", "kind": "rapid", "toolchain": "go126",
          "facets": ["C16/table"], "checks": (3000, 40000), "shards": (2, 8), "timeout": (600, 2400)},
         {"name": "c16kf1", "pkg": "./internal/pkg/verifnet", "run": "^TestVerifKF_C16_CorruptGzipLeaksConnection$", "kind": "kf", "toolchain": "go124",
